@@ -714,7 +714,7 @@ class printcore():
                 try: self.sendcb(command, gline)
                 except: self.logError(traceback.format_exc())
             try:
-                self.printer.write((command + "\n").encode('ascii'))
+                self.printer.write((command + "\n").encode('utf-8'))
                 self.writefailures = 0
             except device.DeviceError as e:
                 self.logError("Can't write to printer (disconnected?)"
